@@ -232,29 +232,7 @@ def run(ctx, prog):
     A.require('credential-claims/check_consistency-every-duplicated-member-agrees', okp, r_cc, replay=R('[consistency]'))
     A.no_panic('credential-claims/check_consistency-no-panic', paths, replay=R('[consistency]'))
 
-    # ---- consistency (presentation) ---------------------------------------------------------------------------------------------
-    PF, PI = S['PresentationJwtClaims'], S['InnerPresentation']
-    vp = PF.index('vp')
-    f = prog.one(r'presentation::jwt_serialization::<impl at [^>]*>::check_consistency$')
-    paths, ex = A.paths(f, inline=r'presentation::jwt_serialization::<impl at [^>]*>::check_consistency::\{closure')
-    okp = [p for p in paths if p.kind == 'return' and p.is_ok()]
-
-    def r_pc(p):
-        def present(*idx):
-            t = SELF
-            for i in idx:
-                t = ('field', t, i, '')
-            return p.took(t, 'Some'), p.took(t, 'None')
-        s, n = present(vp, PI.index('id'))
-        if not n:
-            js, jn = present(PF.index('jti'))
-            if not (s and js and eq_true(p, lambda t: self_field(t, [PF.index('jti')]), lambda t: self_field(t, [vp, PI.index('id')]))):
-                return 'vp.id present but jti absent / different'
-        s, n = present(vp, PI.index('holder'))
-        if not n and not (s and eq_true(p, lambda t: self_field(t, [PF.index('iss')]), lambda t: self_field(t, [vp, PI.index('holder')]))):
-            return 'vp.holder not compared equal with iss'
-        return None
-    A.require('presentation-claims/check_consistency-id-and-holder-agree', okp, r_pc, replay={'scenario': 'presentation_validation'})
+    presentation_consistency(A, prog, {'scenario': 'presentation_validation', 'cex': {'only': '[consistency]'}})
 
     # ---- numeric dates ----------------------------------------------------------------------------------------------------------
     f = prog.one(r'jwt_serialization::<impl at [^>]*>::to_issuance_date$')
@@ -282,6 +260,49 @@ def run(ctx, prog):
             return None
         return None if any(p.took(c, 'Err') for c in fu) else 'valid numeric date rejected'
     A.require('numeric-dates/nbf-else-iat-through-the-0000-9999-gate', paths, r_tid, replay=R('[dates]'))
+
+
+def presentation_consistency(A, prog, replay):
+    """PresentationJwtClaims::check_consistency: vp.id / vp.holder, when present, are compared equal with jti / iss (shared with C03)"""
+    S = prog.structs
+    SELF = ('deref', ('leaf', 'self'))
+
+    def self_field(t, idxs):
+        for s in subterms(t):
+            fp = field_path(s) if isinstance(s, tuple) and s and s[0] in ('field', 'ref', 'deref') else None
+            if fp and fp[0] == 'self' and [i for _, i in fp[1]][:len(idxs)] == list(idxs):
+                return True
+        return False
+
+    def eq_true(p, pa, pb):
+        for c in p.find_calls(r'PartialEq.*>::(eq|ne)$'):
+            a, b = c.args
+            if (pa(a) and pb(b)) or (pa(b) and pb(a)):
+                if p.took(c.ret, 'true' if c.name.endswith('::eq') else 'false'):
+                    return True
+        return False
+    PF, PI = S['PresentationJwtClaims'], S['InnerPresentation']
+    vp = PF.index('vp')
+    f = prog.one(r'presentation::jwt_serialization::<impl at [^>]*>::check_consistency$')
+    paths, ex = A.paths(f, inline=r'presentation::jwt_serialization::<impl at [^>]*>::check_consistency::\{closure')
+    okp = [p for p in paths if p.kind == 'return' and p.is_ok()]
+
+    def r_pc(p):
+        def present(*idx):
+            t = SELF
+            for i in idx:
+                t = ('field', t, i, '')
+            return p.took(t, 'Some'), p.took(t, 'None')
+        s, n = present(vp, PI.index('id'))
+        if not n:
+            js, jn = present(PF.index('jti'))
+            if not (s and js and eq_true(p, lambda t: self_field(t, [PF.index('jti')]), lambda t: self_field(t, [vp, PI.index('id')]))):
+                return 'vp.id present but jti absent / different'
+        s, n = present(vp, PI.index('holder'))
+        if not n and not (s and eq_true(p, lambda t: self_field(t, [PF.index('iss')]), lambda t: self_field(t, [vp, PI.index('holder')]))):
+            return 'vp.holder not compared equal with iss'
+        return None
+    A.require('presentation-claims/check_consistency-id-and-holder-agree', okp, r_pc, replay=replay)
 
 
 def main(ctx):
